@@ -15,12 +15,18 @@ Proved here
      reached by an earlier query (repeated indices, shared cosets);
  (c, conditional) `verifyCompressed (compress pp) = accept` for an accepted `pp`, GIVEN the
      conclusion of the proof-level round trip.
-NOT proved (see the report): the glue of (a) over the list of queries and over the Merkle trees
-(`compress` satisfies the step-map hypothesis; `PathCompression.decompress` on the first-wins
-compressed paths), hence no closed `decompress (compress π) = some π`.
+Follow-up (section "towards the closed round trip"): (1) first-wins for the step maps
+(`compress_step_first_wins`), (2) the glue over the query list for the evaluation part
+(`inferred_and_rebuilt`, `rebuilt_evals`, under the decidable `WF`), (3) `combineInitial_reads_leaves`,
+(4) `merkle_roundtrip_first_wins` and its instance for the initial trees
+(`initial_tree_paths_roundtrip`).
+NOT proved: the instance of (4) for the per-layer trees and the final reassembly (5); hence still
+no closed `decompress (compress π) = some π`, and `hround` of `verifyCompressed_of_roundtrip` is
+not discharged.
 -/
 import P2.Lemmas.C16Chain
 import P2.Lemmas.C16Compress
+import P2.Lemmas.C16Assemble
 namespace P2.Props.C16
 open P2 P2.Fri P2.Merkle P2.Compress P2.Decompress P2.Lemmas.C16
 
@@ -161,6 +167,105 @@ in-kernel instance is out of reach (`GL.pow`/`primitiveRoot` do not reduce by `d
 instance needs Poseidon). The conclusion is satisfiable with a non-trivial layer: -/
 example : ConsistentFrom [e0] exQ [1] 0 2 GL.multGen e0 :=
   ⟨⟨[e0, e1], []⟩, e0, rfl, rfl, rfl, trivial⟩
+
+/-! ### follow-up: towards the closed round trip -/
+
+/-- **(1) first-wins, step maps.** For every layer `j`, a lookup for coset index `k` in the step map
+of the compressed proof returns the entry (`stepKVs`: evaluation vector minus the query's own
+position, compressed path) built from the FIRST query whose layer-`j` coset index is `k`. -/
+theorem compress_step_first_wins (π : Fri.Proof) (idx : List Nat) (p : FriParams)
+    (cp : CompressedFriProof) (h : Compress.compress π idx p = some cp) (j : Nat)
+    (hj : j < p.arityBits.length) :
+    ∃ m, cp.rounds.steps[j]? = some m ∧
+      ∀ k, lookupKey m k = ((stepKVs π idx p j).find? (·.1 == k)).map (·.2) :=
+  compress_step_lookup π idx p cp h j hj
+
+/-- **(3)** `fri_combine_initial` depends only on the leaf parts of the initial-tree openings -/
+theorem combineInitial_reads_leaves (inst : Instance) (initial initial' : List (List GL × List Digest))
+    (alpha : GL2) (x : GL) (red : List GL2) (p : FriParams)
+    (h : initial.map Prod.fst = initial'.map Prod.fst) :
+    combineInitial inst initial alpha x red p = combineInitial inst initial' alpha x red p :=
+  combineInitial_congr inst initial initial' alpha x red p h
+
+/-- **(2) evaluation part of the round trip.** From `compress π idx p = some cp`, the decidable
+shape predicate `WF π idx p` and the consistency of every query round: `get_inferred_elements`
+succeeds on `cp`, and the first loop of `decompress` returns one record per query (`rebuiltOf`). -/
+theorem inferred_and_rebuilt (π : Fri.Proof) (idx : List Nat) (p : FriParams) (cp : CompressedFriProof)
+    (hc : Compress.compress π idx p = some cp) (hwf : WF π idx p)
+    (inst : Instance) (ch : Challenges) (openings : List (List GL2)) (hidx : ch.queryIndices = idx)
+    (numInitial : Nat) (hnum : ∀ q ∈ π.queries, q.initial.length = numInitial)
+    (hcons : ∀ xq ∈ idx.zip π.queries,
+      Consistent inst ch (openings.map fun vals => reduceExt vals ch.alpha) p xq.1 xq.2) :
+    ∃ inferred, inferredElements cp ch openings inst p = some inferred ∧
+      rebuildAll cp p numInitial idx (List.replicate p.arityBits.length []) inferred
+        = some ((idx.zip π.queries).map (rebuiltOf π idx p cp)) :=
+  inferred_and_rebuild π idx p cp hc hwf inst ch openings hidx numInitial hnum hcons
+
+/-- … and the records carry exactly the evaluation vectors of `π`, at the right coset indices -/
+theorem rebuilt_evals (π : Fri.Proof) (idx : List Nat) (p : FriParams) (cp : CompressedFriProof)
+    (hwf : WF π idx p) (x : Nat) (q : QueryRound) (hm : (x, q) ∈ idx.zip π.queries)
+    (j : Nat) (hj : j < p.arityBits.length) :
+    ((rebuiltOf π idx p cp (x, q)).steps.getD j default).1 = idxAt p.arityBits x (j + 1) ∧
+    ((rebuiltOf π idx p cp (x, q)).steps.getD j default).2.1 = (q.steps.getD j default).evals := by
+  have h := expectedFrom_eq (Etrue π idx p) (Mstored π idx p) p.arityBits x p.arityBits 0 rfl
+  have hx : idxAt p.arityBits x 0 = x := rfl
+  rw [hx] at h
+  simp only [rebuiltOf, h, Nat.sub_zero, List.getD_eq_getElem?_getD, List.getElem?_map,
+    List.getElem?_range' (by omega : j < p.arityBits.length), Option.map_some, Option.getD_some,
+    Nat.zero_add, Nat.one_mul]
+  exact ⟨trivial, Etrue_eq hwf hm hj⟩
+
+/-- the same with acceptance as the source of consistency -/
+theorem inferred_and_rebuilt_of_accept (π : Fri.Proof) (idx : List Nat) (p : FriParams)
+    (cp : CompressedFriProof) (hc : Compress.compress π idx p = some cp) (hwf : WF π idx p)
+    (inst : Instance) (ch : Challenges) (openings : List (List GL2)) (caps : List (List Digest))
+    (hidx : ch.queryIndices = idx) (numInitial : Nat)
+    (hnum : ∀ q ∈ π.queries, q.initial.length = numInitial)
+    (hacc : Fri.verify inst openings ch caps π p = .accept) :
+    ∃ inferred, inferredElements cp ch openings inst p = some inferred ∧
+      rebuildAll cp p numInitial idx (List.replicate p.arityBits.length []) inferred
+        = some ((idx.zip π.queries).map (rebuiltOf π idx p cp)) :=
+  inferred_and_rebuilt π idx p cp hc hwf inst ch openings hidx numInitial hnum
+    (hidx ▸ consistent_of_accept inst openings ch caps π p hacc)
+
+/-- **(4) Merkle paths, general.** `decompress_merkle_proofs` on FIRST-WINS compressed proofs: `ws`
+agrees with `compress_merkle_proofs` at every position whose index did not occur earlier and is
+arbitrary elsewhere (in a compressed FRI proof: the first query's stream); against an honest tree
+(`node`, `leafAt`) the honest proofs come back. Generalises `merkle_roundtrip_node`. -/
+theorem merkle_roundtrip_first_wins {L D : Type} (h : Hasher L D) (height capHeight : Nat)
+    (hc : capHeight ≤ height) (leafAt : Nat → L) (node : Nat → D)
+    (hleaf : ∀ i, i < 2 ^ height → node (i + 2 ^ height) = h.hashLeaf (leafAt i))
+    (hnode : ∀ x, 1 ≤ x → x < 2 ^ height → node x = h.two (node (2 * x)) (node (2 * x + 1)))
+    (is : List Nat) (his : ∀ i ∈ is, i < 2 ^ height) (ws : List (List D)) (hl : ws.length = is.length)
+    (hws : ∀ a (_ : a < is.length), is[a] ∉ is.take a →
+      ws[a]? = (PathCompression.compress height capHeight is
+        (is.map (P2.Lemmas.PathCompression.honest node height capHeight)))[a]?) :
+    PathCompression.decompress h (is.map leafAt) is ws height capHeight
+      = some (is.map (P2.Lemmas.PathCompression.honest node height capHeight)) :=
+  roundtrip_firstwins h height capHeight hc leafAt node hleaf hnode is his ws hl hws
+
+/-- **(4a) Merkle paths of initial tree `t` inside `decompress`**: if the `t`-th openings of all
+queries are the honest openings of one tree (`∃ node leafAt` in the statement of the closed
+theorem), the path decompression of `decompressFri` for that tree returns the paths of `π`. -/
+theorem initial_tree_paths_roundtrip (π : Fri.Proof) (idx : List Nat) (p : FriParams)
+    (cp : CompressedFriProof) (hc : Compress.compress π idx p = some cp) (hwf : WF π idx p)
+    (numInitial : Nat) (hnum : ∀ q ∈ π.queries, q.initial.length = numInitial) (t : Nat)
+    (ht : t < numInitial) (hcap : p.config.capHeight ≤ p.ldeBits) (hidx : ∀ x ∈ idx, x < 2 ^ p.ldeBits)
+    (leafAt : Nat → List GL) (node : Nat → Digest)
+    (hleaf : ∀ i, i < 2 ^ p.ldeBits → node (i + 2 ^ p.ldeBits) = digestHasher.hashLeaf (leafAt i))
+    (hnode : ∀ x, 1 ≤ x → x < 2 ^ p.ldeBits → node x = digestHasher.two (node (2 * x)) (node (2 * x + 1)))
+    (hq : ∀ xq ∈ idx.zip π.queries, xq.2.initial.getD t ([], []) =
+      (leafAt xq.1, P2.Lemmas.PathCompression.honest node p.ldeBits p.config.capHeight xq.1)) :
+    decompressPaths digestHasher
+      (((idx.zip π.queries).map (rebuiltOf π idx p cp)).map fun r => (r.initial.getD t default).1) idx
+      (((idx.zip π.queries).map (rebuiltOf π idx p cp)).map fun r => (r.initial.getD t default).2)
+      p.ldeBits p.config.capHeight
+      = some ((idx.zip π.queries).map fun xq => (xq.2.initial.getD t ([], [])).2) :=
+  initial_paths_ok π idx p cp hc hwf numInitial hnum t ht hcap hidx leafAt node hleaf hnode hq
+
+/-- `WF` is decidable; a two-query instance with a shared coset satisfies it -/
+example : WF ⟨[], [exQ, exQ], [], GL.ofNat 0⟩ [2, 3] ⟨⟨0, 0, 0, .fixed [1], 2⟩, false, 2, [1]⟩ := by
+  decide
 
 /-! ### (c), conditional: verification equivalence from the round trip -/
 open P2.Plonk P2.Codec
